@@ -609,6 +609,12 @@ impl FixtureDatabase {
                     return Some(ctx);
                 }
             }
+
+            // The document parses: the AST has the last word. The text heuristics below are
+            // for documents that do not parse (incomplete code while typing); applied to a
+            // valid document they find "signatures" the analyzer does not treat as tests or
+            // fixtures (a nested helper, a function under `if`).
+            return None;
         }
 
         // Fallback: text-based analysis for incomplete/invalid Python
